@@ -73,6 +73,12 @@ def offsets_sweep():
                 if r is None and (c0, c1) != (0, 0) and 30 not in (c0, c1):
                     bad.append("TxnOffsetCommit answered with codes %r: the handler reports the request as done although %r "
                                "is not committed and the transaction has not failed" % ((c0, c1), sorted(still)))
+                from aiokafka.client import CoordinationType
+                wrong = [k for k in h._sender.dead if k != CoordinationType.GROUP]
+                if wrong:
+                    bad.append("TxnOffsetCommit (answered by the GROUP coordinator) with codes %r: the handler declared the %s "
+                               "coordinator dead; the stale group coordinator stays cached and the retry goes to it again"
+                               % ((c0, c1), wrong[0].name))
                 if r is None and (c0, c1) == (0, 0) and not fut.done():
                     bad.append("both offsets acknowledged but send_offsets_to_transaction's future is still pending")
                 if fut.done() and not fut.cancelled():
@@ -106,6 +112,11 @@ def group_sweep():
                 bad.append("AddOffsetsToTxn acknowledged but group recorded as %r, handler result %r" % (added, r))
             if r is None and code not in (0, 30):
                 bad.append("AddOffsetsToTxn answered with %s (%d): reported as done, never retried" % (Errors.for_code(code).__name__, code))
+            from aiokafka.client import CoordinationType
+            wrong = [k for k in h._sender.dead if k != CoordinationType.TRANSACTION]
+            if wrong:
+                bad.append("AddOffsetsToTxn (answered by the TRANSACTION coordinator) with code %d: the handler declared the %s "
+                           "coordinator dead" % (code, wrong[0].name))
             if fut.done() and not fut.cancelled():
                 fut.exception()
         return bad
